@@ -1012,6 +1012,11 @@ func callBuiltin(caller *frame, callpos token.Pos, fn *ssa.Builtin, args []value
 			return x.len()
 		case symstr:
 			return len(x)
+		case opq:
+			if x.n < 0 {
+				panic(unsupported{"len of an abstract (uninterpreted) string"})
+			}
+			return x.n
 		case chan value:
 			return len(x)
 		default:
